@@ -939,3 +939,96 @@ func RuleTI1(c *Ctx) {
 		sc.Violation("kit.JApi.Title", c.P.Pos(fd.Pos()), "Title() returns something other than the Info.Title field itself: it can differ from info.title in the JSON")
 	}
 }
+
+// RuleID2: the JSON key of an interaction is its id text. For every type that implements
+// the InteractionID interface, MarshalText returns exactly []byte(x.String()) for its own
+// receiver: the `id` field of an interaction is built from String(), the object key and the
+// tag's interaction list from MarshalText(), and the two must be one text.
+func RuleID2(c *Ctx) {
+	sc := c.Run.Begin("ID2", "MarshalText of every InteractionID implementation returns []byte(receiver.String()) untransformed, so the key under which an interaction is serialised equals its id field", 2)
+	defer sc.End()
+	pk := c.P.Pkg("catalog")
+	iface := c.Named("catalog", "InteractionID")
+	if pk == nil || iface == nil {
+		sc.Undecided("anchors", "-", "unresolved anchor: catalog.InteractionID")
+		return
+	}
+	it, ok := iface.Underlying().(*types.Interface)
+	if !ok {
+		sc.Undecided("anchors", "-", "catalog.InteractionID is not an interface")
+		return
+	}
+	info := pk.TypesInfo
+	n := 0
+	for _, nm := range pk.Types.Scope().Names() {
+		tn, ok := pk.Types.Scope().Lookup(nm).(*types.TypeName)
+		if !ok {
+			continue
+		}
+		named, ok := tn.Type().(*types.Named)
+		if !ok || named == iface {
+			continue
+		}
+		if !types.Implements(named, it) && !types.Implements(types.NewPointer(named), it) {
+			continue
+		}
+		var mt, str *types.Func
+		for i := 0; i < named.NumMethods(); i++ {
+			switch named.Method(i).Name() {
+			case "MarshalText":
+				mt = named.Method(i)
+			case "String":
+				str = named.Method(i)
+			}
+		}
+		fd := c.P.Decl(mt)
+		if fd == nil || str == nil {
+			continue
+		}
+		n++
+		key := named.Obj().Name()
+		cf := c.CFG(pk, fd.Body)
+		var recvObj types.Object
+		if fd.Recv != nil && len(fd.Recv.List) == 1 && len(fd.Recv.List[0].Names) == 1 {
+			recvObj = info.ObjectOf(fd.Recv.List[0].Names[0])
+		}
+		bad := ""
+		rets := 0
+		inspectNoLit(fd.Body, func(x ast.Node) bool {
+			ret, isRet := x.(*ast.ReturnStmt)
+			if !isRet || len(ret.Results) != 2 {
+				return true
+			}
+			if tv, has := info.Types[ret.Results[1]]; !has || !tv.IsNil() {
+				return true
+			}
+			rets++
+			e := ast.Unparen(cf.Resolve(ret.Results[0]))
+			okShape := false
+			if conv, isCall := e.(*ast.CallExpr); isCall && len(conv.Args) == 1 {
+				if tv, isT := info.Types[conv.Fun]; isT && tv.IsType() {
+					if inner, isCall2 := ast.Unparen(cf.Resolve(conv.Args[0])).(*ast.CallExpr); isCall2 && Callee(info, inner) == str {
+						if id, isId := ast.Unparen(Recv(inner)).(*ast.Ident); isId && info.ObjectOf(id) == recvObj {
+							okShape = true
+						}
+					}
+				}
+			}
+			if !okShape {
+				bad = types.ExprString(ret.Results[0])
+			}
+			return true
+		})
+		switch {
+		case rets == 0:
+			sc.Undecided(key, c.P.Pos(fd.Pos()), "MarshalText has no success return")
+		case bad == "":
+			sc.Holds(key, c.P.Pos(fd.Pos()), "MarshalText returns []byte(String()) of its receiver")
+		default:
+			sc.Violation(key, c.P.Pos(fd.Pos()), "MarshalText returns "+bad+" instead of the untransformed String() of its receiver: the object key (and the tag's interaction list) can differ from the interaction's own id field")
+		}
+	}
+	if n == 0 {
+		sc.Undecided("impls", "-", "no implementation of InteractionID found")
+	}
+}
